@@ -30,7 +30,7 @@ for sid in sorted(os.listdir(root)):
             if m:
                 exit_code = int(m.group(1))
     meta = {
-        'property': sid, 'title': title, 'files_changed': files,
+        'property': sid[:3], 'seed': sid, 'title': title, 'files_changed': files,
         'author': 'sub-agent given only the text of the property and its own scratch git worktree of /repo (nothing from /verif)',
         'why_it_breaks_the_property': why[:1500],
         'what_it_needs_to_manifest': need[:1500],
